@@ -112,7 +112,9 @@ class World:
         "wavelength (nm) is not used for FrequencyAxis step/data (a linear axis in wavelength is not linear in energy)",
     ]
     rule = ("program = seeded list of enter/exit of energy/frequency/length units contexts (real nested `with`), set/get through "
-            "16 units-managed accessors over all 11 energy units, conversions, global set_current_units, 23 library calls and "
+            "29 units-managed accessors and builder / calculator calls (Hamiltonians, axes, molecules, modes, aggregates, bath "
+            "functions, diagonalisation, cut-off couplings, spline interpolation, spectra set by interpolation) over all 11 energy units, "
+            "conversions, global set_current_units, 25 library calls (incl. caller-driven generators), re-used and re-entered context objects and "
             "faults (user exception, raising library call, unknown unit); thorough tier re-runs each sampled program with a user "
             "exception at every position; non-trivial = >=1 context and >=1 set/get/libcall inside it; distinct = distinct "
             "event-log digests among non-trivial runs")
